@@ -31,28 +31,36 @@ MIN_FORMS = {
 HTTP = ("GET", "POST", "PUT", "PATCH", "DELETE")
 
 
-def render_tree_doc(doc, nl="\n", indent=""):
-    """doc: list of {"t": "kw"|"open"|"close", "k":..., "p":...}. "(" goes on its own line
-    right after the keyword line and before the body, as the scanner requires.
-    Returns (bytes, spans) with spans[i] = (begin, end) for item i (1-based like TLA+)."""
-    out = []
-    pos = 0
+def render_tree_project(doc, nl="\n", indent=""):
+    """doc: list of {"t": "kw"|"open"|"close"|"fb"|"fe", "k":..., "p":...}.  "(" goes on its own line
+    right after the keyword line and before the body, as the scanner requires.  "fb" writes an
+    INCLUDE line and continues in a fresh file inc<i>.jst, "fe" ends that file; a body stays in the
+    file of its keyword.
+    Returns (files, spans): files = {name: bytes} with main.jst the root, spans[i] = (file, begin, end)
+    for item i (1-based like TLA+; for "fe": the file that ends, its length, its length)."""
+    outs = {"main.jst": []}
+    poss = {"main.jst": 0}
+    stack = ["main.jst"]
     spans = {}
-    pending_body = None
+    pending_body = None        # (file, text)
 
     def emit(s):
-        nonlocal pos
-        out.append(s)
-        pos += len(s.encode())
+        f = stack[-1]
+        outs[f].append(s)
+        poss[f] += len(s.encode())
 
     def flush_body():
         nonlocal pending_body
         if pending_body is not None:
-            emit(indent + pending_body.replace("\n", nl + indent) + nl)
+            f, text = pending_body
+            s = indent + text.replace("\n", nl + indent) + nl
+            outs[f].append(s)
+            poss[f] += len(s.encode())
             pending_body = None
 
     for i, it in enumerate(doc, 1):
-        if it["t"] == "kw":
+        t = it["t"]
+        if t == "kw":
             flush_body()
             k = it["k"]
             if k in HTTP:
@@ -63,19 +71,39 @@ def render_tree_doc(doc, nl="\n", indent=""):
                 if "%d" in line:
                     line = line % i
             emit(indent)
-            b = pos
+            b = poss[stack[-1]]
             emit(line + nl)
-            spans[i] = (b, b + len(k if k != "HTTP-response-code" else "200"))
-            pending_body = body
-        elif it["t"] == "open":
+            spans[i] = (stack[-1], b, b + len(k if k != "HTTP-response-code" else "200"))
+            pending_body = (stack[-1], body) if body is not None else None
+        elif t == "open":
             emit(indent)
-            spans[i] = (pos, pos + 1)
+            spans[i] = (stack[-1], poss[stack[-1]], poss[stack[-1]] + 1)
             emit("(" + nl)
             flush_body()
-        else:
+        elif t == "close":
             flush_body()
             emit(indent)
-            spans[i] = (pos, pos + 1)
+            spans[i] = (stack[-1], poss[stack[-1]], poss[stack[-1]] + 1)
             emit(")" + nl)
+        elif t == "fb":
+            flush_body()           # the body belongs to the file of its keyword
+            name = "inc%d.jst" % i
+            emit(indent)
+            spans[i] = (stack[-1], poss[stack[-1]], poss[stack[-1]] + 7)
+            emit("INCLUDE " + name + nl)
+            outs[name] = []
+            poss[name] = 0
+            stack.append(name)
+        elif t == "fe":
+            flush_body()
+            f = stack.pop() if len(stack) > 1 else stack[-1]
+            spans[i] = (f, poss[f], poss[f])
     flush_body()
-    return "".join(out).encode(), spans
+    return {f: "".join(parts).encode() for f, parts in outs.items()}, spans
+
+
+def render_tree_doc(doc, nl="\n", indent=""):
+    """single-file documents (no "fb"/"fe"): (bytes, spans) with spans[i] = (begin, end)"""
+    files, spans = render_tree_project(doc, nl, indent)
+    assert list(files) == ["main.jst"], "render_tree_doc: the document has file boundaries"
+    return files["main.jst"], {i: (b, e) for i, (f, b, e) in spans.items()}
